@@ -74,6 +74,9 @@ func mutate(r *simrt.Rand, j *Journal) string {
 		if is := find("close"); len(is) > 0 {
 			c := j.Dirs[pick(is)]
 			others := j.Accounts()
+			if len(others) == 0 {
+				break
+			}
 			o := others[r.Intn(len(others))]
 			if o != c.Account {
 				j.Dirs = append(j.Dirs, Dir{Kind: "txn", Date: c.Date + Day(r.Range(0, 3)), Desc: "after close", Bookings: []Booking{{Credit: o, Debit: c.Account, Qty: 10000, Com: "CHF"}}})
@@ -101,6 +104,9 @@ func mutate(r *simrt.Rand, j *Journal) string {
 		return "assert-unopened"
 	case 8: // booking on an unopened account
 		accs := j.Accounts()
+		if len(accs) == 0 {
+			break
+		}
 		j.Dirs = append(j.Dirs, Dir{Kind: "txn", Date: anchors[0] + Day(r.Range(0, 900)), Desc: "ghost", Bookings: []Booking{{Credit: accs[r.Intn(len(accs))], Debit: "Expenses:Never:Opened", Qty: 5, Com: "CHF"}}})
 		return "post-unopened"
 	}
